@@ -243,25 +243,38 @@ def check_clone(ctx, tu, info):
     for f in tu.fns_named('CallbackListBase::cloneFrom'):
         src = f.params[0]['id'] if f.params else None
         makes = [n for n in f.calls() if (f.callee_key(n) or '') == 'std::make_shared' and 'Node' in tu.tstr(f.nodes[n].get('t'))]
-        ok = len(makes) == 1 and f.block_reaches(f.pos(makes[0])[0], f.pos(makes[0])[0])
+        # one construction inside the copying loop; a peeled first iteration may add another one in front of it
+        ok = bool(makes) and any(f.block_reaches(f.pos(m)[0], f.pos(m)[0]) for m in makes)
         detail = '%d node constructions' % len(makes)
         fresh_vars = set()
         gen_ok = cb_ok = False
         if ok:
-            a = f.call_args(makes[0])
-            # callback from the source cursor, generation from a local drawn once before the loop
-            cbp = path(f, a[0]) if a else ()
-            cb_ok = cbp[-1:] == ('.callback',)
-            g = f.value_source(a[1]) if len(a) > 1 else None
-            if g is not None and f.nodes[g]['cls'] == 'DeclRefExpr' and f.decl(g)['kind'] == 'var':
-                vd = f.var_decls().get(f.decl(g)['id'])
-                if vd and vd.get('init'):
-                    i = f.value_source(vd['init'])
-                    gen_ok = f.is_call(i) and (f.callee_key(i) or '') == 'CallbackListBase::getNextCounter' and \
-                        not f.block_reaches(f.pos(vd['stmt'])[0], f.pos(vd['stmt'])[0])
+            cb_ok = gen_ok = True
+            for mk in makes:
+                a = f.call_args(mk)
+                # callback from the source cursor, generation from a local drawn once before the loop
+                cbp = path(f, a[0]) if a else ()
+                cb_ok = cb_ok and cbp[-1:] == ('.callback',)
+                g = f.value_source(a[1]) if len(a) > 1 else None
+                one = False
+                if g is not None and f.nodes[g]['cls'] == 'DeclRefExpr' and f.decl(g)['kind'] == 'var':
+                    vd = f.var_decls().get(f.decl(g)['id'])
+                    if vd and vd.get('init'):
+                        i = f.value_source(vd['init'])
+                        one = f.is_call(i) and (f.callee_key(i) or '') == 'CallbackListBase::getNextCounter' and \
+                            not f.block_reaches(f.pos(vd['stmt'])[0], f.pos(vd['stmt'])[0])
+                gen_ok = gen_ok and one
+            gens = {f.decl(f.value_source(f.call_args(mk)[1])).get('id') for mk in makes if len(f.call_args(mk)) > 1 and f.nodes[f.value_source(f.call_args(mk)[1])]['cls'] == 'DeclRefExpr'}
+            gen_ok = gen_ok and len(gens) == 1        # all of them the same drawn generation
             for vid, vd in f.var_decls().items():
-                if vd.get('init') and makes[0] in ([f.value_source(vd['init'])] + f.descendants(vd['init'])):
+                if vd.get('init') and any(mk in ([f.value_source(vd['init'])] + f.descendants(vd['init'])) for mk in makes):
                     fresh_vars.add(vid)
+            # a local that is only ever assigned freshly made nodes
+            for vid, vd in f.var_decls().items():
+                asg = [w for w in info.writes(f) if w['how'] == 'assign' and w['path'] == ('v:%s#%d' % (vd['name'], vid),) and w.get('rhs')]
+                if asg and not vd.get('init') and any(f.value_source(w['rhs']) in makes for w in asg):
+                    if all(f.value_source(w['rhs']) in makes or (len(path(f, f.value_source(w['rhs']))) == 1 and root_var_id(path(f, f.value_source(w['rhs']))) in fresh_vars) for w in asg):
+                        fresh_vars.add(vid)
         ctx.ob('C10.S', f, 'every cloned node is a new node holding the source node\'s callback', ok and cb_ok, detail=detail)
         ctx.ob('C10.S', f, 'all cloned nodes get one fresh generation drawn through getNextCounter before the loop', gen_ok,
                detail='copying the source generations (or drawing nothing) makes callbacks of the copy look newer than its invocations: they are skipped')
@@ -276,8 +289,8 @@ def check_clone(ctx, tu, info):
                     rp = path(f, f.value_source(w['rhs']))
                     if len(rp) == 1 and root_var_id(rp) in node_vars and root_var_id(w['path']) not in node_vars and root_var_id(w['path']) != src:
                         # a variable that only ever receives fresh nodes
-                        allsrc = [path(f, f.value_source(x['rhs'])) for x in ws if x['path'] == w['path'] and x['how'] == 'assign' and x.get('rhs')]
-                        if all(len(p) == 1 and root_var_id(p) in node_vars for p in allsrc):
+                        allsrc = [(x, path(f, f.value_source(x['rhs']))) for x in ws if x['path'] == w['path'] and x['how'] == 'assign' and x.get('rhs')]
+                        if all((len(p) == 1 and root_var_id(p) in node_vars) or f.value_source(x['rhs']) in makes for (x, p) in allsrc):
                             node_vars.add(root_var_id(w['path']))
                             changed = True
         bad = []
